@@ -636,6 +636,117 @@ theorem exec_conv_block_correct (m m' : Mem) (ctx : Ctx) (b : BlockOp) (regs : R
 
 
 
+/-! ### the same for depthwise blocks -/
+
+
+theorem dwAcc_congr_inrange (H W : Nat) (f g : Nat → Nat → Int) (hfg : ∀ y x, y < H → x < W → f y x = g y x)
+    (kh kw : Nat) (wgt : Nat → Nat → Int) (sy sx dy dx pt pl : Nat) (zp : Int) (oy ox : Nat) :
+    NpuSem.dwAcc H W f kh kw wgt sy sx dy dx pt pl zp oy ox = NpuSem.dwAcc H W g kh kw wgt sy sx dy dx pt pl zp oy ox := by
+  unfold NpuSem.dwAcc
+  apply sumRange_congr; intro ky _
+  apply sumRange_congr; intro kx _
+  simp only []
+  split
+  · rename_i h
+    rw [hfg _ _ h.2.1 h.2.2.2]
+  · rfl
+
+theorem convBranch_dw_ok (m : Mem) (ctx : Ctx) (b : BlockOp) (w : Weights) (rounding : Rounding) (ifm : Array Int) (H W : Nat)
+    (out : List Int) (hk : b.kind = .depthwise) (h : convBranch m ctx b (some w) rounding ifm H W = .ok out) :
+    ∃ recs : List ScaleRec,
+      (List.range b.ofm.depth).mapM (fun c => readScaleRec m b.scales ctx.ncores c) = .ok recs ∧
+      w.ic = 1 ∧ b.ifm.depth = b.ofm.depth ∧
+      ∀ oy ox oc, oy < b.ofm.height → ox < b.ofm.width → oc < b.ofm.depth →
+        ∃ v, out[(oy * b.ofm.width + ox) * b.ofm.depth + oc]? = some v ∧
+          applyActivation m ctx b (clamp (npuScale rounding
+            (NpuSem.dwAcc H W (fun y x => ifm.getD ((y * W + x) * b.ifm.depth + oc) 0)
+              ((b.kernelH - 1) / b.dilationY + 1) ((b.kernelW - 1) / b.dilationX + 1) (fun ky kx => w.at oc ky kx 0)
+              b.strideY b.strideX b.dilationY b.dilationX b.padTop b.padLeft b.ifm.zeroPoint oy ox + (recs.toArray.getD oc default).bias)
+            (recs.toArray.getD oc default).scale (recs.toArray.getD oc default).shift + b.ofm.zeroPoint) b.actMin b.actMax) = .ok v := by
+  unfold convBranch at h
+  simp only [hk] at h
+  split at h
+  · simp [throw, throwThe, MonadExcept.throw, bind, Except.bind] at h
+  · split at h
+    · simp [throw, throwThe, MonadExcept.throw, bind, Except.bind] at h
+    · split at h
+      · simp [throw, throwThe, MonadExcept.throw, bind, Except.bind] at h
+      · rename_i hdw
+        cases hr : List.mapM (fun c => readScaleRec m b.scales ctx.ncores c) (List.range b.ofm.depth) with
+        | error e => rw [hr] at h; simp [bind, Except.bind] at h
+        | ok recs =>
+          rw [hr] at h
+          simp only [bind, Except.bind] at h
+          have hd : w.ic = 1 ∧ b.ifm.depth = b.ofm.depth := by
+            by_cases h1 : w.ic = 1
+            · by_cases h2 : b.ifm.depth = b.ofm.depth
+              · exact ⟨h1, h2⟩
+              · exact absurd ⟨by decide, Or.inr h2⟩ hdw
+            · exact absurd ⟨by decide, Or.inl h1⟩ hdw
+          refine ⟨recs, rfl, hd.1, hd.2, ?_⟩
+          intro oy ox oc hy hx hc
+          have ⟨_, hg⟩ := mapM_except_get _ _ out h
+          have hv := dwValues_get H W b.ifm.depth (fun y x c => ifm.getD ((y * W + x) * b.ifm.depth + c) 0)
+            ((b.kernelH - 1) / b.dilationY + 1) ((b.kernelW - 1) / b.dilationX + 1) (fun oc ky kx ic => w.at oc ky kx ic)
+            b.strideY b.strideX b.dilationY b.dilationX b.padTop b.padLeft b.ifm.zeroPoint b.ofm.zeroPoint rounding recs.toArray
+            b.ofm.height b.ofm.width b.ofm.depth oy ox oc hy hx hc
+          have hdwk : (OpKind.depthwise == OpKind.depthwise) = true := by decide
+          rw [hdwk] at hg
+          exact hg _ _ hv
+
+theorem exec_dw_block (m m' : Mem) (ctx : Ctx) (b : BlockOp) (regs : RegFile) (w : Weights)
+    (hk : b.kind = .depthwise) (hu : b.upscale = 0) (h : execBlock m ctx b regs (some w) = .ok m') :
+    ∃ rounding l out, Rounding.ofBits (b.ofmPrecision / 16384 % 4) = some rounding ∧ gatherList m b.ifm = .ok l ∧
+      convBranch m ctx b (some w) rounding l.toArray b.ifm.height b.ifm.width = .ok out ∧
+      scatter m b.ofm out.toArray = .ok m' := by
+  unfold execBlock at h
+  simp only [hk, hu, show ¬ ((0 : Nat) > 2) by decide, ne_eq, not_true_eq_false, false_and, if_false, if_true, pure_bind] at h
+  split at h
+  · simp [throw, throwThe, MonadExcept.throw, bind, Except.bind] at h
+  · split at h
+    · simp [throw, throwThe, MonadExcept.throw, bind, Except.bind] at h
+    · split at h
+      · rename_i rounding hro
+        unfold gather at h
+        cases hg : gatherList m b.ifm with
+        | error e => rw [hg] at h; simp [bind, Except.bind] at h
+        | ok l =>
+          rw [hg] at h
+          simp only [bind, Except.bind, pure, Except.pure] at h
+          cases hc : convBranch m ctx b (some w) rounding l.toArray b.ifm.height b.ifm.width with
+          | error e => rw [hc] at h; simp at h
+          | ok out =>
+            rw [hc] at h
+            exact ⟨rounding, l, out, hro, rfl, hc, h⟩
+      · simp [throw, throwThe, MonadExcept.throw] at h
+
+/-- the depthwise block, end to end (see `exec_conv_block_correct`) -/
+theorem exec_dw_block_correct (m m' : Mem) (ctx : Ctx) (b : BlockOp) (regs : RegFile) (w : Weights) (s : Nat)
+    (hk : b.kind = .depthwise) (hu : b.upscale = 0) (h : execBlock m ctx b regs (some w) = .ok m')
+    (hslot : regionSlot b.ofm.region = some s) (hsz : s < m.regions.size)
+    (oy ox oc : Nat) (hy : oy < b.ofm.height) (hx : ox < b.ofm.width) (hc : oc < b.ofm.depth)
+    (hdisj : ∀ y' x' c', y' < b.ofm.height → x' < b.ofm.width → c' < b.ofm.depth → (y', x', c') ≠ (oy, ox, oc) →
+      fmAddr b.ofm oy ox oc + b.ofm.elemBytes ≤ fmAddr b.ofm y' x' c' ∨ fmAddr b.ofm y' x' c' + b.ofm.elemBytes ≤ fmAddr b.ofm oy ox oc) :
+    ∃ (rounding : Rounding) (recs : List ScaleRec) (v : Int),
+      Rounding.ofBits (b.ofmPrecision / 16384 % 4) = some rounding ∧
+      (List.range b.ofm.depth).mapM (fun c => readScaleRec m b.scales ctx.ncores c) = .ok recs ∧
+      applyActivation m ctx b (clamp (npuScale rounding
+          (NpuSem.dwAcc b.ifm.height b.ifm.width (fun y x => memFm m b.ifm y x oc)
+            ((b.kernelH - 1) / b.dilationY + 1) ((b.kernelW - 1) / b.dilationX + 1) (fun ky kx => w.at oc ky kx 0)
+            b.strideY b.strideX b.dilationY b.dilationX b.padTop b.padLeft b.ifm.zeroPoint oy ox + (recs.toArray.getD oc default).bias)
+          (recs.toArray.getD oc default).scale (recs.toArray.getD oc default).shift + b.ofm.zeroPoint) b.actMin b.actMax) = .ok v ∧
+      m'.readElem b.ofm.region (fmAddr b.ofm oy ox oc) b.ofm.elemBytes b.ofm.signed = .ok (wrapElem b.ofm.elemBytes b.ofm.signed v) := by
+  obtain ⟨rounding, l, out, hro, hg, hcb, hsc⟩ := exec_dw_block m m' ctx b regs w hk hu h
+  obtain ⟨recs, hrecs, _, hdep, hvals⟩ := convBranch_dw_ok m ctx b w rounding l.toArray b.ifm.height b.ifm.width out hk hcb
+  obtain ⟨v, hv1, hv2⟩ := hvals oy ox oc hy hx hc
+  refine ⟨rounding, recs, v, hro, hrecs, ?_, ?_⟩
+  · rw [← dwAcc_congr_inrange b.ifm.height b.ifm.width _ (fun y x => memFm m b.ifm y x oc)
+      (fun y x h1 h2 => gather_getD m b.ifm l hg y x oc h1 h2 (by omega))]
+    exact hv2
+  · have := scatter_readback m m' b.ofm out.toArray s hslot hsz hsc oy ox oc hy hx hc hdisj
+    rw [this]
+    simp [Array.getD_eq_getD_getElem?, hv1]
+
 /-- non-vacuity: the block of `Lemmas/Exec.lean` (1x2x1 int8 IFM [5, -6], 1x1 kernel of weight 3, bias 1, unit scale) executes
     and leaves [16, -17] in the OFM bytes -/
 example : (match execBlock exMem ⟨1, 0⟩ exBlock default (some exW) with
